@@ -262,6 +262,10 @@ def execute(plan: dict) -> dict:
                 continue  # without an Adj-RIB-Out nothing is replayed to a new session (recorded as an adjacent finding, not judged)
             pv = RW.peer_view(sess.table)
             want = expected_table(mdl, i)
+            bad = RW.attrs_mismatch(sess.table, variants + [{'med': 99}], {'peer_as': RW.PEER_AS[i], 'local_as': 65001})
+            if bad:
+                violations.append(viol('C17/attributes-differ-from-request', f'neighbor {RW.PEER_IPS[i]} ({where}, step {st["step"]}): {bad}', where=where))
+                return
             if st.get('api_unknown'):
                 # an unmodelled configuration was live for a while: API routes are judged peer == reported only
                 pv_all = pv
@@ -449,9 +453,9 @@ def execute(plan: dict) -> dict:
             p = f'10.250.{st["canary"]}.0/24'
             st['canary_key'] = RW.key_of(p, None, False)
             st['acks'] = sum(1 for _, ln in h.lines if ln in ('done', 'error'))
-            h.emit(f'peer * announce route {p} next-hop 10.0.0.9 med 100\n'.encode())
+            h.emit(f'peer * announce route {p} next-hop 10.0.0.9 med 99\n'.encode())
             for key, nb in model['neighbors'].items():
-                api_routes[nb['idx']][st['canary_key']] = ('10.0.0.9', 100)
+                api_routes[nb['idx']][st['canary_key']] = ('10.0.0.9', 99)
             st['phase'] = 'canary-wait'
             st['t'] = now
         elif ph == 'canary-wait':
